@@ -49,6 +49,12 @@ def _run(actual, expected, lstrip, rstrip, o, patterns=None):
     return r.failures == 0
 
 
+def _alpha_ok(alpha, actual, expected):
+    if not alpha:
+        return True
+    return all(c in alpha for x in actual for c in x) and all(c in alpha for x in expected for c in x)
+
+
 def _bounded(lines, n, k):
     return len(lines) <= n and all(len(x) <= k for x in lines)
 
@@ -57,6 +63,8 @@ def _bounded(lines, n, k):
 def k1_decision(actual: List[str], expected: List[str]) -> bool:
     """
     pre: _bounded(actual, P['nl'], P['nc']) and _bounded(expected, P['nl'], P['nc'])
+    pre: _alpha_ok(P.get('alpha'), actual, expected)
+    pre: (not P.get('exact')) or (len(actual) == P['nl'] and len(expected) == P['nl'] and all(len(x) == P['nc'] for x in actual) and all(len(x) == P['nc'] for x in expected))
     post: __return__
     """
     o = _opts()
@@ -76,6 +84,27 @@ def k1_decision(actual: List[str], expected: List[str]) -> bool:
         got = _run(actual, expected, False, False, o)
         norm = None
     want, _ = text_rule(list(actual), list(expected), norm, o['ign'], o['rem'], o['perm'], o['pre'])
+    return got == want
+
+
+def k1_perm_three(ai: List[int], ei: List[int]) -> bool:
+    """
+    pre: len(ai) == 3 and len(ei) == 3 and all(0 <= i < 3 for i in ai) and all(0 <= i < 3 for i in ei)
+    post: __return__
+    """
+    # the permutation allowance with more differing lines than the allowance: three one-letter lines a side
+    def pick(idx):
+        out = []
+        for i in idx:
+            for k in range(3):
+                if i == k:
+                    out.append('abc'[k])
+                    break
+        return out
+    actual, expected = pick(ai), pick(ei)
+    o = {'ign': [], 'rem': [], 'perm': 2, 'pre': None}
+    got = _run(actual, expected, False, False, o)
+    want, _ = text_rule(list(actual), list(expected), None, [], [], 2, None)
     return got == want
 
 
@@ -208,7 +237,7 @@ def _obs():
         ('surrogate', 0, 0, 0, 0, 2, 2, Q, 300),
         ('surrogate', 1, 1, 0, 0, 2, 1, Q, 300),
         ('none', 1, 1, 1, 1, 2, 1, Q, 300),
-        ('strip', 0, 0, 0, 0, 2, 2, T, 2400),
+                ('strip', 0, 0, 0, 0, 2, 2, T, 2400),
         ('none', 0, 1, 0, 0, 2, 2, T, 2400),
         ('none', 1, 1, 0, 0, 2, 2, T, 2400),
         ('none', 0, 0, 1, 0, 2, 2, T, 2400),
@@ -216,17 +245,25 @@ def _obs():
         ('none', 0, 0, 0, 0, 3, 2, T, 2400),
         ('surrogate', 1, 1, 1, 1, 2, 2, T, 2400),
     ]
-    for norm, ign, rem, perm, pre, nl, nc, tier, to in combos:
+    for combo in combos:
+        norm, ign, rem, perm, pre, nl, nc, tier, to = combo[:9]
+        alpha = combo[9] if len(combo) > 9 else None
+        exact = bool(combo[10]) if len(combo) > 10 else False
         obs.append(Ob('K1', 'k1_decision', what,
-                      'actual, expected: <=%d lines of <=%d symbolic characters; normaliser=%s ignore_substrings=%s '
+                      'actual, expected: %s%d lines of %s%d symbolic characters%s; normaliser=%s ignore_substrings=%s '
                       'remove_lines=%s max_permutation_cases=%s preprocess=%s'
-                      % (nl, nc, norm, ['#'] if ign else [], ['!'] if rem else [], 2 if perm else 0,
-                         'drop-first-line' if pre else None),
-                      param={'norm': norm, 'ign': ign, 'rem': rem, 'perm': perm, 'pre': pre, 'nl': nl, 'nc': nc},
+                      % ('exactly ' if exact else '<=', nl, 'exactly ' if exact else '<=', nc,
+                         (' over the alphabet %r' % alpha) if alpha else '', norm, ['#'] if ign else [],
+                         ['!'] if rem else [], 2 if perm else 0, 'drop-first-line' if pre else None),
+                      param={'norm': norm, 'ign': ign, 'rem': rem, 'perm': perm, 'pre': pre, 'nl': nl, 'nc': nc,
+                             'alpha': alpha, 'exact': exact},
                       timeout=to, tier=tier,
                       stubs=['FilesComparison.reconstruct / add_failures -> empty bodies (formatting only)']
                       + (['normalize_function -> surrogate normaliser (drop one leading "_"); the real '
                           'strip/lstrip/rstrip is K1 k1_normalizer'] if norm == 'surrogate' else [])))
+    obs.append(Ob('K1', 'k1_perm_three', what, 'actual, expected: exactly 3 one-letter lines each over {a,b,c} (symbolic '
+                  'index per line); max_permutation_cases=2 (so that more lines can differ than the allowance)',
+                  timeout=300, stubs=['FilesComparison.reconstruct / add_failures -> empty bodies (formatting only)']))
     obs.append(Ob('K1', 'k1_normalizer', 'normalize_function(l, r) is s / s.lstrip() / s.rstrip() / s.strip()',
                   's: any string len<=3; l, r symbolic', timeout=120))
     for ign, rem, perm, pre, pat, nl, nc, tier, to in ((1, 1, 1, 0, 0, 2, 2, Q, 300), (0, 0, 0, 1, 1, 2, 2, Q, 300),
